@@ -50,6 +50,11 @@ class C18(Prop):
                         out.append(viol(f"permission check rejected a root-controlled file: {op}", cops[:2] + [op], cgo[:2] + [g]))
                     if str(r.get("run", "")).startswith("panic"):
                         out.append(viol(f"the call panicked: {op} -> {g}", cops[:2] + [op], cgo[:2] + [g]))
+                elif op.startswith("ex.dangling"):
+                    if "marker=1" in g or "check=ok" in g or "run=ok" in g:
+                        out.append(viol(f"a path that cannot be resolved passed the check / was executed: {op} -> {g}", cops[:2] + [op], cgo[:2] + [g]))
+                    if "panic" in g:
+                        out.append(viol(f"the call panicked: {op} -> {g}", cops[:2] + [op], cgo[:2] + [g]))
                 elif op.startswith("ex.twice"):
                     ok1 = allowed(int(a["owner"]), int(a["group"]), int(a["mode"], 8))
                     ok2 = allowed(int(a["owner2"]), int(a["group2"]), int(a["mode2"], 8))
